@@ -1,6 +1,8 @@
 SPECIFICATION Spec
 CONSTANTS
   MaxReq = 6
+  McastEnabled = FALSE
+  Protos <- ProtosUT
   UDPEnabled = TRUE
   HasRecord = TRUE
   HasPlay = TRUE
